@@ -310,6 +310,17 @@ async fn run_honest_tree<TC: Configuration>(cc: &CaseCtx, case: &HistCase, rng: 
                     j.judge(l, "H3-invented-newer-version", p, hp, false, "-");
                 }
             }
+            // ---- H2b: no update proofs at all (with and without marker proofs)
+            {
+                let mut p = honest.clone();
+                p.update_proofs.clear();
+                j.judge(l, "H2-no-update-proofs", p.clone(), hp, false, "-");
+                p.past_marker_vrf_proofs.clear();
+                p.existence_of_past_marker_proofs.clear();
+                p.future_marker_vrf_proofs.clear();
+                p.non_existence_of_future_marker_proofs.clear();
+                j.judge(l, "H2-empty-proof", p, hp, false, "-");
+            }
             // ---- H4: per-entry alterations (sampled positions)
             let positions: Vec<usize> = if want.len() <= 3 { (0..want.len()).collect() } else { vec![0, want.len() / 2, want.len() - 1] };
             for &i in &positions {
@@ -327,6 +338,28 @@ async fn run_honest_tree<TC: Configuration>(cc: &CaseCtx, case: &HistCase, rng: 
                     f(&mut p.update_proofs[i]);
                     if p.update_proofs[i] != before {
                         j.judge(l, cls, p, hp, false, pos);
+                    }
+                }
+                // H9: internally consistent, tree-inconsistent: the field is replaced AND the leaf hash (and the
+                // stale leaf hash of the previous version) recomputed, so only the Merkle paths can reject
+                {
+                    let mut p = honest.clone();
+                    let u = &mut p.update_proofs[i];
+                    u.value = AkdValue(b"forged-consistent".to_vec());
+                    u.existence_proof.hash_val = AzksValue(TC::hash_leaf_with_value(&u.value, u.epoch, &u.commitment_nonce).0);
+                    j.judge(l, "H9-value-forged-leaf-hash-recomputed", p, hp, false, pos);
+                    for de in [-1i64, 1] {
+                        let mut p = honest.clone();
+                        let u = &mut p.update_proofs[i];
+                        let ne = u.epoch as i64 + de;
+                        if ne >= 1 {
+                            u.epoch = ne as u64;
+                            u.existence_proof.hash_val = AzksValue(TC::hash_leaf_with_value(&u.value, u.epoch, &u.commitment_nonce).0);
+                            if let Some(pp) = u.previous_version_proof.as_mut() {
+                                pp.hash_val = AzksValue(TC::hash_leaf_with_commitment(TC::stale_azks_value(), u.epoch).0);
+                            }
+                            j.judge(l, "H9-epoch-forged-leaf-hashes-recomputed", p, hp, false, pos);
+                        }
                     }
                 }
                 // re-forged entry with another epoch (nonce and proofs regenerated consistently)
@@ -529,6 +562,23 @@ async fn run_dishonest_tree<TC: Configuration>(cc: &CaseCtx, rng: &mut Rng, l: &
         for depth in [None, Some(0usize), Some(1), Some(3), Some(1000)] {
             if let Some(p) = forge.history_proof(&victim, &shown, cur, depth).await {
                 cands.push(("H8-forge", p));
+            }
+        }
+        // the prover papers over the missing stale leaf: right node label (real VRF proof), the stale leaf hash
+        // the verifier expects for the epoch of the replacement, Merkle path borrowed from the nearest node
+        if let Some(mut p) = forge.history_proof(&victim, &shown, cur, None).await {
+            let mut touched = false;
+            for u in p.update_proofs.iter_mut() {
+                if u.version == bad_version + 1 {
+                    let sl = forge.node_label(&victim, false, bad_version).await;
+                    if !forge.view.is_leaf(&sl) || late > 0 {
+                        u.previous_version_proof = Some(forge.membership_forced(&sl, AzksValue(TC::hash_leaf_with_commitment(TC::stale_azks_value(), u.epoch).0)));
+                        touched = true;
+                    }
+                }
+            }
+            if touched {
+                cands.push(("H8-forced-previous-version-proof", p));
             }
         }
         for (cls, p) in cands {
